@@ -17,7 +17,13 @@ This harness replays every printed model into the real code (direction A):
     observables only: wherever the original accepts the input the optimized model must accept it
     and return identical outputs (VIOLATION otherwise; a departure the spec predicts through a named
     deviation is reported under that deviation id);
-  * the original's real outputs are compared with the spec's Eval (SPEC-MISMATCH only).
+  * the original's real outputs are compared with the spec's Eval (SPEC-MISMATCH only);
+  * models whose outputs include a data Reshape/Expand/Slice/Concat are optimized a second time in their
+    "annotated" form (graph outputs declared with the int / named dims they really have at every judged
+    binding, as exporters write them) so that the shape-driven rewrite rules of optimize()
+    (MaterializeReshapeShape, collapse_slice2, ...) act on known output shapes; judged the same way.
+Bindings at which ORT rejects the original, or at which ONNX leaves the original's meaning open (spec: UNSPEC),
+are discarded.  TLC jobs run in forked helper processes; a finished job's models are replayed while others run.
 """
 from __future__ import annotations
 
@@ -68,8 +74,9 @@ def decl_dim(c):
 
 
 # ------------------------------------------------------------------ gamma: TLC case -> ModelProto
-def build_model(case, variant=0):
-    """variant 0: constants are initializers; 1: Constant nodes (value tensor); 2: Constant nodes (value_ints)"""
+def build_model(case, variant=0, drop_abs=False):
+    """variant 0: constants are initializers; 1: Constant nodes (value tensor); 2: Constant nodes (value_ints)
+    drop_abs: every Abs becomes Identity (what the deviation abs_assumes_nonneg does; used to attribute a departure)"""
     from onnx import TensorProto as T
     from onnx import helper as h
 
@@ -114,7 +121,7 @@ def build_model(case, variant=0):
                 attrs["allowzero"] = 1
         elif op == "Slice":
             names += [const(f"c{k}_s", [p[1]]), const(f"c{k}_e", [p[2]]), const(f"c{k}_a", [p[0]]), const(f"c{k}_k", [p[3]])]
-        nodes.append(h.make_node(op, names, [out], name=f"n{k}", **attrs))
+        nodes.append(h.make_node("Identity" if drop_abs and op == "Abs" else op, names, [out], name=f"n{k}", **attrs))
     outs = []
     for i in case["outs"]:
         m = case["meta"][i - 1]
@@ -368,6 +375,14 @@ def run_case(arg):
     onames = [o.name for o in model.graph.output]
     runs = []
     kept = {}
+    _abs = []
+
+    def absless_session():
+        if not _abs:
+            _abs.append(core.ort_session(build_model(case, variant, drop_abs=True)))
+        return _abs[0]
+
+    absless = absless_session if any(n["op"] == "Abs" for n in case["nodes"]) else None
     for j, b in enumerate(bindings(case)):
         rng = np.random.default_rng([seed, zlib.crc32(case_key(case).encode()), j])
         feeds = feeds_for(case, b, rng)
@@ -377,7 +392,7 @@ def run_case(arg):
             runs.append({"o": None, "err": str(e)[-120:]})
             continue
         rec = {"o": [enc(a) for a in r0]}
-        rec["opt"] = compare_run(sess1, onames, feeds, r0)
+        rec["opt"] = compare_run(sess1, onames, feeds, r0, absless)
         sp = case["rep"][j]
         if sp["ok"] and not sp["un"]:
             kept[j] = (feeds, r0)
@@ -414,11 +429,13 @@ def run_case(arg):
             except Exception as e:
                 out["opt2_raised"] = f"{type(e).__name__}: {str(e)[:300]}"
             for j, (feeds, r0) in kept.items():
-                runs[j]["opt2"] = compare_run(sess2, onames, feeds, r0)
+                runs[j]["opt2"] = compare_run(sess2, onames, feeds, r0, absless)
     return out
 
 
-def compare_run(sess, onames, feeds, r0):
+def compare_run(sess, onames, feeds, r0, absless=None):
+    """SAME | NOMODEL | ERR ... | DIFF ...; a DIFF gets the suffix ' [=abs-dropped]' when the optimized model returns
+    exactly what the original returns once its Abs nodes are replaced by Identity (absless: lazy session factory)"""
     if sess is None:
         return "NOMODEL"
     try:
@@ -428,8 +445,16 @@ def compare_run(sess, onames, feeds, r0):
         return "ERR " + str(e)[-160:]
     for q in range(len(r0)):
         if not core.same_array(r0[q], r1[q]):
-            return (f"DIFF {onames[q]}: original {r0[q].dtype}{list(r0[q].shape)} {r0[q].reshape(-1)[:6].tolist()} "
-                    f"optimized {r1[q].dtype}{list(r1[q].shape)} {r1[q].reshape(-1)[:6].tolist()}")
+            msg = (f"DIFF {onames[q]}: original {r0[q].dtype}{list(r0[q].shape)} {r0[q].reshape(-1)[:6].tolist()} "
+                   f"optimized {r1[q].dtype}{list(r1[q].shape)} {r1[q].reshape(-1)[:6].tolist()}")
+            if absless is not None:
+                try:
+                    r2 = absless().run(onames, feeds)
+                    if all(core.same_array(r1[k], r2[k]) for k in range(len(r1))):
+                        msg += " [=abs-dropped]"
+                except Exception:
+                    pass
+            return msg
     return "SAME"
 
 
@@ -580,6 +605,7 @@ class Tally:
         self.traces_ok = 0
         self.discarded = 0
         self.dev_pred = 0
+        self.dev_later = 0
         self.models = 0
         self.aborting = 0
         self.lines = []      # (sort key, text) of SPEC-MISMATCH lines
@@ -599,7 +625,7 @@ def run(ctx: core.Ctx):
     chain = "SymShape_chain3.cfg" if q else "SymShape_chain3t.cfg"
     jobs = [("vacuity: Sound under AllDevs must fail", "SymShape_vacuity.cfg", dict(timeout=1200, workers=2, heap="1g"))]
     for cfg in [chain, "SymShape_quick.cfg"] if q else [chain, "SymShape_quick.cfg", "SymShape_thorough.cfg", "SymShape_design.cfg"]:
-        jobs.append((cfg, cfg, dict(timeout=3000, workers=8 if q else 6, heap="3g")))
+        jobs.append((cfg, cfg, dict(timeout=3000, workers=8 if q else 6, heap="3g" if q else "6g")))
     nsim, num = (4, 200) if q else (12, 1000)
     for j in range(nsim):
         cfg = "SymShape_sim.cfg" if j % 2 == 0 else "SymShape_sim2.cfg"
@@ -613,7 +639,7 @@ def run(ctx: core.Ctx):
     n_exh = 0
     tlc_results = {}
     # the models of a finished TLC job are replayed while the other jobs still run
-    for label, cfg, res in tlc_stream(jobs, 7):
+    for label, cfg, res in tlc_stream(jobs, 7 if q else 5):
         tlc_results[label] = res
         if cfg == "SymShape_vacuity.cfg":
             if res.ok or res.violated != "Sound":
@@ -693,6 +719,7 @@ def finish_tally(ctx, t):
     ctx.set("model_impl_mismatches", t.mism + t.absm)
     ctx.set("abstract_state_mismatches", t.absm)
     ctx.set("departures_predicted_by_deviation", t.dev_pred)
+    ctx.set("departures_by_deviation_in_later_iteration", t.dev_later)
 
 
 def replay_batch(ctx, t, cases):
@@ -787,6 +814,12 @@ def assess(ctx, t, case, r):
             if not sp["same"] and case["devs"]:
                 finding = sorted(case["devs"])[0]
                 t.dev_pred += 1
+            elif what.endswith("[=abs-dropped]") and abs_deviation_guard(case):
+                # the deviation acting in a LATER iteration of optimize() (after a rewrite rule turned e.g. a full Slice
+                # into Identity): the optimized model equals the original with its Abs dropped, and the guard of the
+                # deviation holds statically for an Abs of the model
+                finding = "abs_assumes_nonneg"
+                t.dev_later += 1
             elif k_run == "opt2" and any(-1 in sh and 0 in sh for sh in r.get("opt2_materialized", [])) and not rr[k_run].startswith("DIFF"):
                 # guard of the known deviation of MaterializeReshapeShape: a constant shape holding -1 and 0 next to allowzero=1
                 finding = "materialize_allowzero"
@@ -802,6 +835,39 @@ def assess(ctx, t, case, r):
         if len(t.samples) < 200:
             t.samples.append((_h(case), {"model": txt, "symbolic_value_map": spec_view(case)["sym"], "decisions": [d["k"] for d in case["dec"]],
                                          "bindings": len(case["rep"]), "accepted": sum(1 for x in r["runs"] if x["o"] is not None)}))
+
+
+PASS_THROUGH = ("Slice", "Identity", "Cast", "Reshape", "Squeeze", "Gather", "Concat", "Abs")
+
+
+def abs_deviation_guard(case):
+    """the guard of deviation abs_assumes_nonneg, evaluated on the spec's symbolic values: some Abs operand is (or is
+    computed by value-selecting ops from) a value whose symbolic dims include a composite symbol with a negative
+    term while none of its dims is a negative literal (the code's own guard passes, the design's does not)"""
+    ni = len(case["ins"])
+
+    def ancestors(i, seen):
+        if i in seen:
+            return
+        seen.add(i)
+        if i > ni:
+            n = case["nodes"][i - ni - 1]
+            if n["op"] in PASS_THROUGH:
+                for o in n["a"]:
+                    if o["t"] == "r":
+                        ancestors(o["i"], seen)
+
+    for n in case["nodes"]:
+        if n["op"] != "Abs":
+            continue
+        seen = set()
+        ancestors(n["a"][0]["i"], seen)
+        for i in seen:
+            s = case["sym"][i - 1]
+            if s["k"] == "shape" and any(len(d) > 1 and any(t < 0 for t in d) for d in s["d"]) \
+                    and not any(len(d) == 1 and d[0] < 0 for d in s["d"]):
+                return True
+    return False
 
 
 def case_min(case):
